@@ -567,3 +567,170 @@ def G7(vc):
         summary = ('without_successes', n, sorted(st2))
     vc.ensure('immutable', list(st._states.items()) == list(entries.items()) and st.purpose is own and st.basetime is basetime)
     return summary
+
+
+# =========================================================================== G5: HandlerState.for_storage / as_in_storage / from_scratch
+class IsoPair:
+    """format_iso8601 / parse_iso8601 as a trusted PAIR (their round trip on real datetimes is the bounded check G4):
+    format(None) is None; format(t) is a string, the same one for the same moment; parse(None) is None;
+    parse(format(t)) == t; parse of any other string is some datetime."""
+    def __init__(self, vc):
+        self.vc, self.formatted, self.format_calls, self.parse_calls = vc, [], [], []
+
+    def format(self, val):
+        self.format_calls.append(val)
+        if val is None:
+            return None
+        for t, s in self.formatted:
+            if t is val:
+                return s
+        s = self.vc.str('iso8601')
+        self.formatted.append((val, s))
+        return s
+
+    def parse(self, val):
+        self.parse_calls.append(val)
+        if val is None:
+            return None
+        for t, s in self.formatted:
+            if s is val:
+                return t
+        from pyvc.stubs import SDt
+        return SDt(self.vc.real('parse_iso8601()'))
+
+
+def load_hs5(vc, clock, iso):
+    """The real dataclass progression.HandlerState with the members under contract here (and `finished`/`awakened`/
+    `from_storage` of G1, needed for the composed clauses) re-bound to their mechanically extracted source."""
+    from kopf._core.actions import progression
+    from pyvc.stubs import StubDatetimeModule, StubLoop
+    stubs = {'datetime': StubDatetimeModule, 'asyncio.get_running_loop': lambda: StubLoop(clock),
+             'format_iso8601': iso.format, 'parse_iso8601': iso.parse}
+    ld = {n: vc.load(PROG, f'HandlerState.{n}', stubs=stubs)
+          for n in ('finished', 'sleeping', 'awakened', 'from_storage', 'from_scratch', 'for_storage', 'as_in_storage')}
+
+    class HS(progression.HandlerState):
+        finished = property(lambda self: ld['finished'].fn(self))
+        sleeping = property(lambda self: ld['sleeping'].fn(self))
+        awakened = property(lambda self: ld['awakened'].fn(self))
+
+        def for_storage(self): return ld['for_storage'].fn(self)
+        def as_in_storage(self): return ld['as_in_storage'].fn(self)
+
+        @classmethod
+        def from_storage(cls, record, *, basetime): return ld['from_storage'].fn(cls, record, basetime=basetime)
+
+        @classmethod
+        def from_scratch(cls, *, basetime, purpose=None): return ld['from_scratch'].fn(cls, basetime=basetime, purpose=purpose)
+    return HS
+
+
+def _truthy(x):
+    return x.truth() if isinstance(x, SV) else bool(x)
+
+
+def _same_moment(a, b):
+    """two Optional datetimes (SDt) denote the same moment"""
+    if a is None or b is None:
+        return a is None and b is None
+    return Eq(a.t, b.t)
+
+
+@harness('G5', targets=[f'{PROG}.HandlerState.for_storage', f'{PROG}.HandlerState.as_in_storage', f'{PROG}.HandlerState.from_scratch'],
+         props=['C02', 'C16', 'C14'],
+         clauses=['record_fields', 'record_is_json', 'as_in_storage_drops_nones', 'round_trip', 'reload_is_stable', 'from_scratch'],
+         canaries=['canary.record_has_no_nones', 'canary.never_finished'],
+         trusted=['format_iso8601/parse_iso8601 as a pair: parse(format(t)) == t, format is a function of the moment (bounded check G4 on '
+                  'the real isoformat/iso8601.parse_date)', 'datetime arithmetic as real arithmetic; loop.time() is the ghost clock'])
+def G5(vc):
+    """
+    For an arbitrary handler state s (all fields symbolic; purpose None / a causes.Reason member / a plain string; subrefs empty,
+    sorted, unsorted, as tuple or list; message None or any string; retries None or any count):
+      record_fields   r = s.for_storage(): started/stopped/delayed == format_iso8601 of the field (None for None); purpose == its
+                      string (None for None); retries/success/failure/message == the field; subrefs == the sorted list, None if empty;
+                      exactly the nine documented keys (progress.ProgressRecord);
+      record_is_json  every value of r is None, a bool, an int, a string or a list of strings (nothing in-memory leaks into the record);
+      as_in_storage_drops_nones   s.as_in_storage() == r without its None-valued keys (what Kubernetes keeps);
+      round_trip      s2 = from_storage(r) and s3 = from_storage(as_in_storage(s)) (Kubernetes dropped the nulls) both have
+                      finished/success/failure, retries (None -> 0), started, stopped, delayed, purpose, message and subrefs
+                      (as a sorted list) equal to those of s, and are passive -- so a restarted operator sees what was recorded;
+      reload_is_stable   as_in_storage(s3) == as_in_storage(s): a loaded, unchanged state is equal to its origin (State.store, G6,
+                      then writes nothing for it);
+      from_scratch    a new state is active, unfinished, never delayed (awakened at once), has 0 attempts, started now, the given
+                      purpose and no origin (so it is always stored).
+    """
+    from kopf._core.intents import causes
+    from pyvc.stubs import Clock, SDt
+    clock = Clock('loop.time')
+    basetime = SDt(vc.real('basetime'))
+    iso = IsoPair(vc)
+    HS = load_hs5(vc, clock, iso)
+    now = basetime.t + clock.now
+    if vc.nondet(2, 'for_storage & round trip | from_scratch') == 1:
+        purpose = resolve(vc.fin('purpose', [None, causes.Reason.RESUME, 'update']))
+        given = vc.nondet(2, 'purpose= given?') == 1
+        s = HS.from_scratch(basetime=basetime, purpose=purpose) if given else HS.from_scratch(basetime=basetime)
+        vc.ensure('from_scratch', s.active is True and s.basetime is basetime and Eq(s.started.t, now) and s.stopped is None
+                  and s.delayed is None and Eq(s.retries, 0) and s._origin is None and not s.subrefs and s.message is None)
+        vc.ensure('from_scratch', s.purpose is (purpose if given else None))
+        fin, aw = s.finished, s.awakened
+        vc.ensure('from_scratch', And(Not(fin), aw))
+        return ('from_scratch', fin, aw)
+    retries = vc.opt('s.retries', vc.int)
+    if retries is not None:
+        vc.assume(retries >= 0, 'recorded attempts are a count')
+    purpose = resolve(vc.fin('s.purpose', [None, causes.Reason.CREATE, 'update']))
+    subrefs = resolve(vc.fin('s.subrefs', [(), [], ['h/a', 'h/b'], ('h/z', 'h/a', 'h/m')]))
+    message = vc.opt('s.message', vc.str)
+    s = HS(active=vc.bool('s.active'), basetime=basetime, started=SDt(vc.real('s.started')),
+           stopped=vc.opt('s.stopped', lambda n: SDt(vc.real(n))), delayed=vc.opt('s.delayed', lambda n: SDt(vc.real(n))),
+           purpose=purpose, retries=retries, success=vc.bool('s.success'), failure=vc.bool('s.failure'),
+           message=message, subrefs=subrefs, _origin=None)
+    r = s.for_storage()
+    fmt = dict((id(t), x) for t, x in iso.formatted)
+
+    def formatted_from(value, source):
+        return value is None if source is None else (id(source) in fmt and value is fmt[id(source)])
+    keys = ('started', 'stopped', 'delayed', 'purpose', 'retries', 'success', 'failure', 'message', 'subrefs')
+    vc.ensure('record_fields', isinstance(r, dict) and sorted(r) == sorted(keys))
+    for k in ('started', 'stopped', 'delayed'):
+        vc.ensure('record_fields', formatted_from(r[k], getattr(s, k)))
+    vc.ensure('record_fields', r['purpose'] is None if purpose is None else (type(r['purpose']) is str and r['purpose'] == str(purpose)))
+    vc.ensure('record_fields', r['retries'] is None if retries is None else Eq(r['retries'], retries))
+    vc.ensure('record_fields', And(Eq(r['success'], s.success), Eq(r['failure'], s.failure)))
+    vc.ensure('record_fields', r['message'] is None if message is None else Eq(r['message'], message))
+    vc.ensure('record_fields', r['subrefs'] is None if not subrefs else
+              (type(r['subrefs']) is list and r['subrefs'] == sorted(subrefs) and r['subrefs'] is not subrefs))
+
+    def is_json(v):
+        return v is None or isinstance(v, (SBool, SNum, SStr, bool, int, str)) \
+            or (type(v) is list and all(type(x) is str for x in v))
+    vc.ensure('record_is_json', all(is_json(v) for v in r.values()))
+    pure = s.as_in_storage()
+    vc.ensure('as_in_storage_drops_nones', isinstance(pure, dict) and list(pure) == [k for k in r if r[k] is not None]
+              and all(pure[k] is r[k] or pure[k] == r[k] for k in pure))
+    vc.canary('canary.record_has_no_nones', list(pure) == list(r))
+    for label, rec in (('full', r), ('nulls-dropped', pure)):
+        s2 = HS.from_storage(rec, basetime=basetime)
+        vc.ensure('round_trip', And(Iff(_truthy(s2.success), s.success), Iff(_truthy(s2.failure), s.failure),
+                                    Iff(s2.finished, Or(s.success, s.failure))))
+        vc.ensure('round_trip', Eq(s2.retries, 0 if retries is None else retries))
+        vc.ensure('round_trip', And(_same_moment(s2.started, s.started), _same_moment(s2.stopped, s.stopped),
+                                    _same_moment(s2.delayed, s.delayed)))
+        vc.ensure('round_trip', s2.purpose is None if purpose is None else s2.purpose == purpose)
+        vc.ensure('round_trip', s2.message is None if message is None else Eq(s2.message, message))
+        vc.ensure('round_trip', list(s2.subrefs) == sorted(subrefs) and s2.active is False and s2._origin is rec)
+    s3 = HS.from_storage(pure, basetime=basetime)
+    pure3 = s3.as_in_storage()
+    same = list(pure3) == list(pure)
+    for k in pure:
+        if k in pure3:
+            same = And(same, pure3[k] is pure[k] or Eq(pure3[k], pure[k]))
+    # a record without the attempts counter is reloaded as 0 attempts: the only field a reload may add
+    if retries is None:
+        vc.ensure('reload_is_stable', [k for k in pure3 if k != 'retries'] == list(pure) and Eq(pure3['retries'], 0))
+    else:
+        vc.ensure('reload_is_stable', same)
+        vc.ensure('reload_is_stable', Not(pure3 != s3._origin))       # the very comparison State.store makes
+    vc.canary('canary.never_finished', Not(s2.finished))
+    return ('for_storage', sorted(pure), s2.finished)
